@@ -27,7 +27,7 @@ pub open spec fn grown(o: Nodes, n: Nodes) -> bool {
 /// loop invariant of the walk: `cur` is the node reached by the parts consumed so far (`pre`); it may still be a dead leaf
 pub open spec fn add_inv(n1: Nodes, m: Nodes, root: ModuleNodeId, cur: ModuleNodeId, pre: Seq<Seq<char>>, fm: FileMap, cnt1: u32, cnt: u32) -> bool {
     &&& tree_wf_ex(m, root, Some(cur)) &&& m.contains_key(cur) &&& resolve(m, root, pre) == Some(cur)
-    &&& files_wf(m, fm) &&& ids_wf(m, cnt) &&& grown(n1, m) &&& cnt1 <= cnt <= cnt1 + pre.len()
+    &&& files_wf(m, fm) &&& ids_wf(m, cnt) &&& grown(n1, m) &&& cnt1 <= cnt <= cnt1 + pre.len() &&& rooted(m, root)
 }
 
 pub open spec fn texts_distinct(ch: Map<String, ModuleNodeId>) -> bool {
@@ -142,6 +142,18 @@ pub proof fn lemma_add_step_new(n1: Nodes, m: Nodes, m2: Nodes, root: ModuleNode
         }
     }
     assert(tree_wf_ex(m2, root, Some(nid)));
+    // rooted
+    assert forall|x: ModuleNodeId| #[trigger] m2.contains_key(x) implies exists|d: nat| #[trigger] anc(m2, x, d) == Some(root) by {
+        if x == nid {
+            let d = choose|d: nat| #[trigger] anc(m, cur, d) == Some(root);
+            lemma_anc_same_parents(m, m2, cur, d, root);
+            assert(anc(m2, nid, d + 1) == Some(root));
+        } else {
+            assert(m.contains_key(x));
+            let d = choose|d: nat| #[trigger] anc(m, x, d) == Some(root);
+            lemma_anc_same_parents(m, m2, x, d, root);
+        }
+    }
     // resolution
     lemma_resolve_mono(m, m2, root, Some(nid), pre);
     assert(pre.push(key@).drop_last() =~= pre);
@@ -187,7 +199,7 @@ pub proof fn lemma_add_final(n1: Nodes, m: Nodes, m2: Nodes, root: ModuleNodeId,
     requires add_inv(n1, m, root, cur, parts, fm, cnt1, cnt), !fm.contains_key(f),
         nd.parent == m[cur].parent, nd.children@ == m[cur].children@, nd.file_ids@ == m[cur].file_ids@.push(f),
         m2 == m.insert(cur, nd), info.module_id == cur, info.file_id == f,
-    ensures tree_wf(m2, root), files_wf(m2, fm.insert(f, info)), ids_wf(m2, cnt), resolve(m2, root, parts) == Some(cur),
+    ensures tree_wf(m2, root), rooted(m2, root), files_wf(m2, fm.insert(f, info)), ids_wf(m2, cnt), resolve(m2, root, parts) == Some(cur),
         lists(m2, cur, f), tree_added(n1, m2, cur, f),
 {
     let fm2 = fm.insert(f, info);
@@ -214,6 +226,11 @@ pub proof fn lemma_add_final(n1: Nodes, m: Nodes, m2: Nodes, root: ModuleNodeId,
         if x != cur { assert(m.contains_key(x)); }
     }
     assert(tree_wf(m2, root));
+    assert forall|x: ModuleNodeId| #[trigger] m2.contains_key(x) implies exists|d: nat| #[trigger] anc(m2, x, d) == Some(root) by {
+        assert(m.contains_key(x));
+        let d = choose|d: nat| #[trigger] anc(m, x, d) == Some(root);
+        lemma_anc_same_parents(m, m2, x, d, root);
+    }
     lemma_resolve_mono(m, m2, root, None, parts);
     // files
     assert forall|x: ModuleNodeId, g: FileId| #[trigger] lists(m2, x, g) implies fm2.contains_key(g) && fm2[g].module_id == x by {
@@ -247,4 +264,36 @@ pub proof fn lemma_add_final(n1: Nodes, m: Nodes, m2: Nodes, root: ModuleNodeId,
         }
     }
     assert(grown(n1, m) && m.contains_key(cur) && m2 == m.insert(cur, m2[cur]));
+}
+
+/// the name table after a registration: untouched (fuzzy search off) or `f` appended to the vector of the module's last name
+pub open spec fn names_added(o: NameTable, n: NameTable, fuzzy: bool, name: Seq<char>, f: FileId) -> bool {
+    if fuzzy {
+        exists|key: String| #[trigger] n.contains_key(key) && key@ == name && n == o.insert(key, n[key])
+            && n[key]@ == (if o.contains_key(key) { o[key]@ } else { Seq::<FileId>::empty() }).push(f)
+    } else { n == o }
+}
+
+pub proof fn lemma_names_add(o: NameTable, n: NameTable, fm: FileMap, fuzzy: bool, name: Seq<char>, f: FileId, info: ModuleInfo)
+    requires names_wf(o, fm), names_added(o, n, fuzzy, name, f),
+    ensures names_wf(n, fm.insert(f, info)),
+{
+    let fm2 = fm.insert(f, info);
+    if fuzzy {
+        let key = choose|key: String| #[trigger] n.contains_key(key) && key@ == name && n == o.insert(key, n[key])
+            && n[key]@ == (if o.contains_key(key) { o[key]@ } else { Seq::<FileId>::empty() }).push(f);
+        let base = if o.contains_key(key) { o[key]@ } else { Seq::<FileId>::empty() };
+        assert forall|k: String, g: FileId| n.contains_key(k) && #[trigger] n[k]@.contains(g) implies fm2.contains_key(g) by {
+            if k == key {
+                let i = choose|i: int| 0 <= i < n[k]@.len() && n[k]@[i] == g;
+                if i < base.len() { assert(base[i] == g); assert(o[key]@.contains(g)); }
+            } else {
+                assert(o.contains_key(k) && o[k]@.contains(g));
+            }
+        }
+    } else {
+        assert forall|k: String, g: FileId| n.contains_key(k) && #[trigger] n[k]@.contains(g) implies fm2.contains_key(g) by {
+            assert(o.contains_key(k) && o[k]@.contains(g));
+        }
+    }
 }
